@@ -134,7 +134,7 @@ CLAIMED["C11"] = ("Atomicity by construction: (a) no path in the whole-program c
     "happens only in the VM loop, so these primitives are atomic; (b) the cut is justified on every run: no installed finalizer reaches the VM "
     "or the allocator except the port finalizer's flush, which is confined to the closed-port arms (openp cleared before the flush, tested "
     "before the custom/string-port arms); (c) the Scheme code of (srfi 18) never writes the lock/owner slots itself; (d) every primitive that "
-    "queues the current thread as paused stores its event and waitp fields on every path first; (e) FRONT and BACK of the run queue are stored together; (f) a function that writes a thread's wake-up deadline writes it on every path. Necessary conditions of mutual exclusion / "
+    "queues the current thread as paused stores its event and waitp fields on every path first; (e) FRONT and BACK of the run queue are stored together; (f) a function that writes a thread's wake-up deadline writes it on every path; (g) every store that ends a thread's wait (waitp = 0) defines its timeoutp flag in the same basic block (the Scheme retry loops ask thread-timeout? right after the resume). Necessary conditions of mutual exclusion / "
     "no lost wake-up; fairness and schedule independence are not decided.",
     "whole-program call-graph reachability with function-pointer flow (per struct field / parameter); dominance side conditions justifying the cut edge",
     "3 C11")
